@@ -1,13 +1,15 @@
 /-
 C15 – BMP messages decode faithfully and malformed ones cannot panic the monitor.
 
-Property theorems only (helper lemmas: Rc/Lemmas/Bmp.lean, Rc/Lemmas/OpenParse.lean).
+Property theorems only (helper lemmas: Rc/Lemmas/Bmp.lean, Rc/Lemmas/OpenParse.lean,
+Rc/Lemmas/OpenBridge.lean, Rc/Lemmas/BmpEmbedded.lean).
 The model (Rc/Model/Bmp.lean) mirrors src/bmp/message.rs after the repairs
 listed in known_findings.jsonl (`fixed` entries); `Outcome.panic` stands for
 every slice/index/unwrap/overflow that could fire.
 -/
 import Rc.Lemmas.BmpBytes
 import Rc.Lemmas.OpenParse
+import Rc.Lemmas.BmpEmbedded
 
 namespace Rc.Thm.C15
 open Rc Rc.Bmp
@@ -222,6 +224,135 @@ theorem peer_up_total {bs : Bytes} (h : fromOctets deps bs = .ok .peerUp) :
       | panic => simp [h3] at hc
     | err => simp [h2] at hc
     | panic => simp [h2] at hc
+
+/-! ## the embedded BGP messages, through the models that own them (C03, C01/C02) -/
+
+/-- **One model of the capability rules.**  The content rules of `Capability::parse` as written
+for the BMP parse path (`Rc.OpenParse.capContent`: cursor + absolute positions) and as written
+for `from_octets` / `check` / the accessors (`Rc.Open.capContent`, C03: remaining bytes) accept
+exactly the same capabilities: for every capability code, length octet, buffer and position. -/
+theorem capability_rules_agree (typ len start : Nat) (d : Bytes) (hp : start + 2 ≤ d.length) :
+    (∃ c', Rc.OpenParse.capContent typ len start ⟨d, start + 2⟩ = .ok c') ↔
+      Rc.Open.capContent typ len (d.drop (start + 2)) = .ok () :=
+  Rc.OpenBridge.capContent_agree typ len start d hp
+
+/-- … and so do the two models of `Capability::parse` as a whole: each accepts what the other
+accepts, as the same capability, leaving the parser at the same place. -/
+theorem capability_parse_agree (d : Bytes) (p : Nat) (hp : p ≤ d.length) :
+    (∀ c', Rc.OpenParse.capParse ⟨d, p⟩ = .ok c' →
+      ∃ cap, Rc.Open.parseCap (d.drop p) = .ok (cap, d.drop (p + 2 + cap.value.length)) ∧
+        c' = ⟨d, p + 2 + cap.value.length⟩ ∧ p + 2 + cap.value.length ≤ d.length) ∧
+    (∀ cap r, Rc.Open.parseCap (d.drop p) = .ok (cap, r) →
+      Rc.OpenParse.capParse ⟨d, p⟩ = .ok ⟨d, p + 2 + cap.value.length⟩ ∧
+        r = d.drop (p + 2 + cap.value.length)) :=
+  Rc.OpenBridge.capParse_agree d p hp
+
+/-- **An OPEN accepted by `OpenMessage::parse` is one `OpenMessage::from_octets` accepts**: the
+`n` octets `parse` returns (from a buffer that may go on: the rest of the PeerUp) pass
+`OpenMessage::check` on their own.  Everything C03 proves of a checked OPEN therefore holds of
+the OPENs a PeerUp hands out. -/
+theorem embedded_open_is_checked (bs : Bytes) (n : Nat) (h : deps.openParse bs = .ok n) :
+    n ≤ bs.length ∧ Rc.Open.fromOctets (bs.take n) = .ok (bs.take n) :=
+  ⟨(Rc.OpenBridge.openParse_check bs n h).1, parsed_open_from_octets h⟩
+
+/-- **The two decoders of an OPEN accept the same messages**: `OpenMessage::parse` at the start of
+`bs` accepts and returns `n` octets exactly when the first `n` octets of `bs` pass
+`OpenMessage::check` (so `from_octets` accepts them).  The parse path (optional parameters read on
+the whole buffer with the `opt_param_len` accounting, `Header::parse`, final length comparison)
+and the check path (parser limited to the optional-parameters field, `Header::check`,
+"trailing bytes") are two descriptions of one set of messages. -/
+theorem embedded_open_iff_checked (bs : Bytes) (n : Nat) :
+    deps.openParse bs = .ok n ↔ n ≤ bs.length ∧ Rc.Open.openCheck (bs.take n) = .ok () :=
+  Rc.OpenBridge.openParse_iff_check bs n
+
+/-- non-vacuity: a 55-octet OPEN (capabilities MP 1/1, 4-octet AS, ADD-PATH, FQDN) followed by other
+octets is accepted by the parse-path model, which consumes exactly the OPEN -/
+example :
+    deps.openParse (Rc.Open.marker ++ [0, 55, 1, 4, 0xfd, 0xea, 0, 90, 10, 0, 0, 2, 26, 2, 24,
+      1, 4, 0, 1, 0, 1, 65, 4, 0, 0, 0xfd, 0xea, 69, 4, 0, 1, 1, 3, 73, 4, 1, 0x41, 1, 0x42] ++ [9, 9, 9]) = .ok 55 := by
+  decide
+
+/-- **The PeerUp configuration accessors are total.**  On every accepted PeerUp,
+`bgp_open_sent_rcvd()` and what `session_config`, `pph_session_config`, `supported_protocols`
+read off the two OPENs – `my_asn`, `four_octet_capable`, `addpath_families_vec` (through
+`addpath_intersection`), the MultiProtocol capability values, `capabilities()`, `parameters()`,
+`get_software_version`, `holdtime`, `identifier`, `version` – return values: none panics (C03
+`open_accessors_total`, carried over by `embedded_open_is_checked`); an `Err` of
+`addpath_families_vec` is a value (`addpath = none`: the intersection is then empty). -/
+theorem peer_up_config_total {bs : Bytes} (h : fromOctets deps bs = .ok .peerUp) :
+    ∃ c, peerUpConfig deps bs = .ok c := by
+  obtain ⟨u, hu⟩ := peer_up_total h
+  have hs : ∃ s, openSent deps bs = .ok s := by
+    unfold peerUp at hu
+    repeat' (first | split at hu | dsimp only at hu)
+    all_goals first | (simp at hu; done) | exact ⟨_, by assumption⟩
+  have hr : ∃ r, openRcvd deps bs = .ok r := by
+    unfold peerUp at hu
+    repeat' (first | split at hu | dsimp only at hu)
+    all_goals first | (simp at hu; done) | exact ⟨_, by assumption⟩
+  obtain ⟨s, hs⟩ := hs
+  obtain ⟨r, hr⟩ := hr
+  obtain ⟨n1, hp1, rfl⟩ := openSent_inv hs
+  obtain ⟨off, n2, hp2, rfl⟩ := openRcvd_inv hr
+  obtain ⟨c1, e1⟩ := Rc.OpenNoErr.openCfg_ok _ (parsed_open_from_octets hp1)
+  obtain ⟨c2, e2⟩ := Rc.OpenNoErr.openCfg_ok _ (parsed_open_from_octets hp2)
+  exact ⟨(c1, c2), by simp [peerUpConfig, hs, hr, e1, e2]⟩
+
+private theorem upd_header_body {bs body : Bytes} {hl : Nat} {ty : UInt8}
+    (h : Rc.Upd.headerParse bs = .ok (hl, ty, body)) : body = bs.drop 19 := by
+  unfold Rc.Upd.headerParse at h
+  cases h16 : takeN 16 bs with
+  | none => simp [h16] at h
+  | some q =>
+    obtain ⟨m, r0⟩ := q
+    obtain ⟨hm, hb⟩ := takeN_length h16
+    simp only [h16] at h
+    split at h
+    · simp at h
+    · match r0, h with
+      | a :: b :: t :: r, h =>
+        simp [rd16] at h
+        rw [hb, ← h.2.2]
+        simp [List.drop_append, hm]
+      | [a, b], h => simp [rd16] at h
+      | [a], h => simp [rd16] at h
+      | [], h => simp [rd16] at h
+
+/-- **The embedded UPDATE decodes exactly as it would on its own.**  For an accepted
+RouteMonitoring message and every session configuration, `bgp_update(config)`
+(`UpdateMessage::parse` on a parser over the whole BMP message advanced by 48) (1) is
+`UpdateMessage::parse` of the octets after the per-peer header – it never panics (the
+`expect` cannot fire, and C02 `parse_total`) –, and (2) succeeds / fails exactly when
+`UpdateMessage::from_octets` on those octets does, with the same sections and parse info
+(`f.msg = m`); the one difference is which octets the value keeps: `from_octets` all of them
+(`f.octets`), `parse` the `length − 19` octets after the 19-octet header
+(`m.body = (f.octets.drop 19).take (hl − 19)`, `hl` the UPDATE's length field), the section
+ranges being shifted by those 19. -/
+theorem route_monitoring_update_same {bs : Bytes} (h : fromOctets deps bs = .ok .routeMonitoring)
+    (cfg : Rc.Upd.Cfg) :
+    rmUpdate cfg bs = Rc.Upd.parseUpdate cfg (bs.drop 48) ∧
+    rmUpdate cfg bs ≠ .panic ∧
+    (∀ m, rmUpdate cfg bs = .ok m ↔ updFromOctets cfg (bs.drop 48) = .ok ⟨bs.drop 48, m⟩) ∧
+    (rmUpdate cfg bs = .err ↔ updFromOctets cfg (bs.drop 48) = .err) ∧
+    (∀ m, rmUpdate cfg bs = .ok m →
+      ∃ hl ty body, Rc.Upd.headerParse (bs.drop 48) = .ok (hl, ty, body) ∧ 19 ≤ hl ∧
+        m.body = ((bs.drop 48).drop 19).take (hl - 19)) := by
+  have e : rmUpdate cfg bs = Rc.Upd.parseUpdate cfg (bs.drop 48) := by
+    simp [rmUpdate, route_monitoring_total h]
+  have hnp := Rc.Thm.C02.parse_total cfg (bs.drop 48)
+  refine ⟨e, by rw [e]; exact hnp, ?_, ?_, ?_⟩
+  · intro m
+    rw [e]
+    unfold updFromOctets
+    cases Rc.Upd.parseUpdate cfg (bs.drop 48) <;> simp
+  · rw [e]
+    unfold updFromOctets
+    cases Rc.Upd.parseUpdate cfg (bs.drop 48) <;> simp
+  · intro m hm
+    rw [e] at hm
+    obtain ⟨hl, ty, body, _, _, _, _, _, _, _, _, _, hh, h19, _, _, _, _, _, _, _, _, _, _, _, hbody, _⟩ :=
+      Rc.Upd.parseUpdate_ok hm
+    exact ⟨hl, ty, body, hh, h19, by rw [hbody, upd_header_body hh]⟩
 
 /-! ## faithfulness: "decoding succeeds and reports the encoded fields"
 
